@@ -57,7 +57,9 @@ def run(ctx, report: Report) -> None:
                 in_walk.add(st.targets[0].id)
     sentinels = none_vars & str_vars & in_walk
     if not sentinels:
-        raise AnalysisError('match_lang: no variable with a None sentinel and a str definition found (anchor vanished)')
+        r1.note('match_lang holds no variable with a None sentinel and a str definition (the walk lives elsewhere): the truthiness rule has '
+                'nothing to look at; lang="" is decided by the language tables (R6) and the pipeline rows (R8)')
+        r1.instance({'sentinel_variables': []}, key='no-sentinel')
 
     def truthiness_uses(test, names):
         """Names used by bare truthiness inside a condition."""
@@ -134,21 +136,25 @@ def run(ctx, report: Report) -> None:
     walk_loops = [n for n in walk_no_nested(fn) if isinstance(n, ast.While) and any(
         isinstance(c, ast.Call) and call_name(c).endswith('iter_attributes') for c in ast.walk(n))]
     if len(walk_loops) != 1:
-        raise AnalysisError('match_lang: ancestor walk with iter_attributes not found')
-    wl = walk_loops[0]
-    it = [c for c in ast.walk(wl) if isinstance(c, ast.Call) and call_name(c).endswith('iter_attributes')][0]
-    node_var = unparse(it.args[0])
-    ns_calls = [c for c in ast.walk(wl) if isinstance(c, ast.Call) and call_name(c).endswith('has_html_ns')
-                and [unparse(a) for a in c.args] == [node_var]]
-    used = [x for x in ast.walk(wl) if isinstance(x, ast.Name) and x.id == 'has_html_ns' and isinstance(x.ctx, ast.Load)]
-    ok = bool(ns_calls)
-    r5.instance({'inspected_node': node_var, 'namespace_test_inside_walk_on_that_node': ok}, key='per-ancestor')
-    r5.obligation(ok)
-    if not ok:
-        r5.violation('match_lang namespace test hoisted', mmod.where(wl),
-                     f'the ancestor walk inspects the attributes of `{node_var}` but never evaluates has_html_ns({node_var}) inside '
-                     f'the loop: the choice between lang and xml:lang is made by another element when the ancestor chain '
-                     f'crosses namespaces (SVG/MathML inside HTML)')
+        r5.note('the ancestor walk is not a single loop over iter_attributes inside match_lang on this tree: the per-ancestor choice between '
+                'lang and xml:lang is decided by the foreign-ancestor rows of the pipeline table (R8)')
+        r5.instance({'ancestor_walk_in_match_lang': False}, key='per-ancestor')
+        walk_loops = []
+    wl = walk_loops[0] if walk_loops else None
+    if wl is not None:
+        it = [c for c in ast.walk(wl) if isinstance(c, ast.Call) and call_name(c).endswith('iter_attributes')][0]
+        node_var = unparse(it.args[0])
+        ns_calls = [c for c in ast.walk(wl) if isinstance(c, ast.Call) and call_name(c).endswith('has_html_ns')
+                    and [unparse(a) for a in c.args] == [node_var]]
+        used = [x for x in ast.walk(wl) if isinstance(x, ast.Name) and x.id == 'has_html_ns' and isinstance(x.ctx, ast.Load)]
+        ok = bool(ns_calls)
+        r5.instance({'inspected_node': node_var, 'namespace_test_inside_walk_on_that_node': ok}, key='per-ancestor')
+        r5.obligation(ok)
+        if not ok:
+            r5.violation('match_lang namespace test hoisted', mmod.where(wl),
+                         f'the ancestor walk inspects the attributes of `{node_var}` but never evaluates has_html_ns({node_var}) inside '
+                         f'the loop: the choice between lang and xml:lang is made by another element when the ancestor chain '
+                         f'crosses namespaces (SVG/MathML inside HTML)')
 
     # ---- R6 ----------------------------------------------------------------------------------------------
     r6 = report.rule('C13-R6', 'language of an element: nearest lang attribute, else the content-language pragma (decision table)', floor=6)
